@@ -728,6 +728,62 @@ theorem C05_load_edit_reload_converges_partial (env env' : Env) (fuel : Nat) (x 
   exact C05_hot_reload_converges_partial env env' fuel _ _ changed hS hS' hL l1 l2 hrank hd1 hfuel l3 hs1 hfile hdir
     (fun d hd hg => mem_keepEvents _ changed _ d hd hg) hmiss hret hrewire
 
+/-- **Non-vacuity** of `C05_load_edit_reload_converges_partial`: the chain `b → e` of the examples
+above, with the initial state produced by the load theorem — empty cache, empty reloader, `load b`
+(which loads `e`), the reloader takes the two registrations; `e.s` is edited from `10` to `20` and
+notified; `hot_reload`. All hypotheses hold; the computed result is `e = 20`, `b = 21`. -/
+example :
+    Settled (exEnv [1, 0] [20]) 10
+      (hotReload (exEnv [1, 0] [20]) 10
+        (handleEvents (exEnv [1, 0] [20]) 10 (loadDrain (exEnv [1, 0] [10]) 10 ({}, {}) kb).1
+          (loadDrain (exEnv [1, 0] [10]) 10 ({}, {}) kb).2 [.file "e" "s"]).1
+        (handleEvents (exEnv [1, 0] [20]) 10 (loadDrain (exEnv [1, 0] [10]) 10 ({}, {}) kb).1
+          (loadDrain (exEnv [1, 0] [10]) 10 ({}, {}) kb).2 [.file "e" "s"]).2).1
+      (hotReload (exEnv [1, 0] [20]) 10
+        (handleEvents (exEnv [1, 0] [20]) 10 (loadDrain (exEnv [1, 0] [10]) 10 ({}, {}) kb).1
+          (loadDrain (exEnv [1, 0] [10]) 10 ({}, {}) kb).2 [.file "e" "s"]).1
+        (handleEvents (exEnv [1, 0] [20]) 10 (loadDrain (exEnv [1, 0] [10]) 10 ({}, {}) kb).1
+          (loadDrain (exEnv [1, 0] [10]) 10 ({}, {}) kb).2 [.file "e" "s"]).2).2.graph ∧
+    (hotReload (exEnv [1, 0] [20]) 10
+        (handleEvents (exEnv [1, 0] [20]) 10 (loadDrain (exEnv [1, 0] [10]) 10 ({}, {}) kb).1
+          (loadDrain (exEnv [1, 0] [10]) 10 ({}, {}) kb).2 [.file "e" "s"]).1
+        (handleEvents (exEnv [1, 0] [20]) 10 (loadDrain (exEnv [1, 0] [10]) 10 ({}, {}) kb).1
+          (loadDrain (exEnv [1, 0] [10]) 10 ({}, {}) kb).2 [.file "e" "s"]).2).2.dead = false :=
+  C05_load_edit_reload_converges_partial (exEnv [1, 0] [10]) (exEnv [1, 0] [20]) 10 ({}, {}) kb [.file "e" "s"]
+    (rank := exRank) (exEnv_steady _ _) (exEnv_steady _ _) (exEnv_same _ _ _ _)
+    rfl (settled_nil _ _ _) graphOK_nil rfl rfl (by decide) (noProbedKeyFilled_nil _ _)
+    (exEnv_unchanged_e _ _ _) (fun _ _ => rfl) (rank_of_entries (by decide)) (by decide)
+    (noMiss_of_check (by decide)) (reloadsReturn_of_check (by decide)) (noRewire_of_check (by decide))
+
+/-- the state the load theorem produces is the one the earlier examples built by hand, and the
+conclusion checked on the computed result -/
+example :
+    (loadDrain (exEnv [1, 0] [10]) 10 ({}, {}) kb).1.lookup ke = some ⟨.int 10, true, 0, false, 0⟩ ∧
+    (loadDrain (exEnv [1, 0] [10]) 10 ({}, {}) kb).1.lookup kb = some ⟨.int 11, true, 0, false, 1⟩ ∧
+    settledB (exEnv [1, 0] [10]) 10 (loadDrain (exEnv [1, 0] [10]) 10 ({}, {}) kb).1
+      (loadDrain (exEnv [1, 0] [10]) 10 ({}, {}) kb).2.graph = true ∧
+    (hotReload (exEnv [1, 0] [20]) 10
+        (handleEvents (exEnv [1, 0] [20]) 10 (loadDrain (exEnv [1, 0] [10]) 10 ({}, {}) kb).1
+          (loadDrain (exEnv [1, 0] [10]) 10 ({}, {}) kb).2 [.file "e" "s"]).1
+        (handleEvents (exEnv [1, 0] [20]) 10 (loadDrain (exEnv [1, 0] [10]) 10 ({}, {}) kb).1
+          (loadDrain (exEnv [1, 0] [10]) 10 ({}, {}) kb).2 [.file "e" "s"]).2).1.lookup kb =
+      some ⟨.int 21, true, 1, true, 1⟩ := by decide
+
+/-- **Non-vacuity** of `C05_history_settled_partial`: `load n` (loads `e`), `load b` (hits `e`) without
+a drain in between, `hot_reload`, `load e` (a hit), `hot_reload`. -/
+example :
+    Settled (exEnv [1, 0] [10]) 10
+      (runH 10 ([(exEnv [1, 0] [10], .api (.load kn)), (exEnv [1, 0] [10], .api (.load kb))] ++ [(exEnv [1, 0] [10], .hotReload)]) ({}, {})).1
+      (runH 10 ([(exEnv [1, 0] [10], .api (.load kn)), (exEnv [1, 0] [10], .api (.load kb))] ++ [(exEnv [1, 0] [10], .hotReload)]) ({}, {})).2.graph :=
+  (C05_history_settled_partial (exEnv [1, 0] [10]) (exEnv_steady _ _) 10
+    [(exEnv [1, 0] [10], .api (.load kn)), (exEnv [1, 0] [10], .api (.load kb)), (exEnv [1, 0] [10], .hotReload),
+     (exEnv [1, 0] [10], .api (.load ke)), (exEnv [1, 0] [10], .hotReload)]
+    (.load kn _ _ _ (loadOK_of_check (by decide))
+      (.load kb _ _ _ (loadOK_of_check (by decide))
+        (.hotReload _ _ (.load ke _ _ _ (loadOK_of_check (by decide)) (.hotReload _ _ (.nil _))))))
+    [(exEnv [1, 0] [10], .api (.load kn)), (exEnv [1, 0] [10], .api (.load kb))]
+    [(exEnv [1, 0] [10], .api (.load ke)), (exEnv [1, 0] [10], .hotReload)] rfl).1
+
 /-! Non-vacuity -/
 example : GraphOK (Graph.insertAsset [] (.asset ⟨0, "a"⟩) [.file "a" "s"]) :=
   C05_insert_keeps_inverse [] graphOK_nil _ _
